@@ -12,6 +12,11 @@
 (* concretisation -- what the harness must do to realise it -- and the     *)
 (* input size classes on which it is affordable.  TLC enumerates the whole *)
 (* space; the check takes its configurations from this export only.        *)
+(* A second branch of the same machine composes the BATCHES of the inv     *)
+(* axis (which kind of file precedes which in one invocation, BATCH lines) *)
+(* and the module fixes the VIEWS of every output that are observed: the   *)
+(* full text and projections that the one recorded defect of that axis     *)
+(* cannot change (Projections, RenumberingMayExplain).                     *)
 (*                                                                         *)
 (* Facts about the code this model stands on (axlcomp.c:compCmd/compInit,  *)
 (* store.c:stoCtl/stoGc/stoVerifForcedGc):                                 *)
